@@ -1,11 +1,11 @@
 (* Model of pdb2pqr.cif.atom_site (C10): every _atom_site row is turned into
    a fixed-column PDB-style text line which is then parsed by pdb.ATOM /
    pdb.HETATM.  The assembly is modelled AS WRITTEN after the repairs
-   fix_C10_P1..P4 (one blank, the atom name 4 wide with the one-letter-element
-   rule, the alt-loc column = value or blank for a missing value, label_comp_id,
-   auth_asym_id, auth_seq_id, the insertion-code column, three blanks; the
-   pdbx_formal_charge branch whose else-arm is still an expression statement
-   without effect), over strings, with the mmCIF dependency's missing-value
+   fix_C10_P1..P6 (one blank, the atom name 4 wide with the one-letter-element
+   rule, the alt-loc column = value or blank for a missing value, atom and residue
+   name = the auth_ item when the loop has it and the value is present, else the
+   label_ item, auth_asym_id, auth_seq_id, the insertion-code column, three
+   blanks; _pdb_charge for columns 79-80), over strings, with the mmCIF dependency's missing-value
    convention as the parameter [mv] (what PdbxReader stores for an unquoted '.'
    and '?').
 
@@ -87,9 +87,61 @@ Definition is_missing (v : pyval) : bool :=
   | None => true
   | Some s => String.eqb s "" || String.eqb s "." || String.eqb s "?"
   end.
+(* int(s) for an already stripped ASCII string: optional sign, digits
+   (underscore separators and non-ASCII digits are not modelled) *)
+Definition py_int (s : string) : res Z :=
+  let body :=
+    match s with
+    | String "+" rest =>
+        match rest with
+        | String "-" _ => None
+        | String "+" _ => None
+        | _ => Z_of_string rest
+        end
+    | _ => Z_of_string s
+    end in
+  match body with Some z => Ok z | None => Err ValueError end.
+
+(* columns 79-80: "1-", "2+", blank for 0 / missing / non-integer / |charge| > 9 *)
+Definition digit1 (z : Z) : option ascii :=
+  match z with
+  | 1 => Some "1" | 2 => Some "2" | 3 => Some "3" | 4 => Some "4" | 5 => Some "5"
+  | 6 => Some "6" | 7 => Some "7" | 8 => Some "8" | 9 => Some "9" | _ => None
+  end%Z%char.
+
+Definition charge_cols (s : string) : string :=
+  match py_int s with
+  | Ok z =>
+      match digit1 (Z.abs z) with
+      | Some d => String d (String (if (0 <? z)%Z then "+"%char else "-"%char) "")
+      | None => "  "
+      end
+  | Err _ => "  "
+  end.
+
+(* spec side *)
+Definition pdb_charge (it : item) : string :=
+  match it with Tok s => charge_cols s | _ => "  " end.
+
+(* cif._pdb_charge(value): blank if value in _MISSING; int(value) ValueError -> blank;
+   0 or abs > 9 -> blank; else digit + sign *)
+Definition pdb_charge_v (v : pyval) : string :=
+  if is_missing v then "  " else match v with Some s => charge_cols s | None => "  " end.
+
 (* len(v) needs a str *)
 Definition need_str (v : pyval) : res string :=
   match v with None => Err TypeError | Some s => Ok s end.
+
+(* _auth_or_label(atoms, name, i):
+     if "auth_" + name in atoms.attribute_list:
+         value = atoms.get_value("auth_" + name, i)
+         if value not in _MISSING: return value
+     return atoms.get_value("label_" + name, i) *)
+Definition pick (mv : mvconv) (auth label : item) : res pyval :=
+  match auth with
+  | Absent => get mv label
+  | _ => v <- get mv auth ;; if is_missing v then get mv label else Ok v
+  end.
 
 (* ---- the line assembly of cif.atom_site (same text in all four copies;
         the HETATM copies multiply "" instead of " " in the first field) ---- *)
@@ -104,7 +156,7 @@ Definition assemble (mv : mvconv) (k : kind) (r : row) : res string :=
   let l := l ++ " " in
   (* 13-16: name = label_atom_id; element = type_symbol;
      if len(name) < 4 and len(element) < 2: name = " " + name;  name + " " * (4 - len(name)) *)
-  vnm <- get mv (label_atom_id r) ;;
+  vnm <- pick mv (auth_atom_id r) (label_atom_id r) ;;
   vel <- get mv (type_symbol r) ;;
   nm <- need_str vnm ;;
   pad <- (if (String.length nm <? 4)%nat
@@ -115,7 +167,7 @@ Definition assemble (mv : mvconv) (k : kind) (r : row) : res string :=
   valt <- get mv (label_alt_id r) ;;
   let l := l ++ (if is_missing valt then " " else py_str valt) in
   (* 18-20 *)
-  vcomp <- get mv (label_comp_id r) ;;
+  vcomp <- pick mv (auth_comp_id r) (label_comp_id r) ;;
   comp <- rjust_v 3 vcomp ;;
   let l := l ++ comp in
   (* 21 *)
@@ -147,9 +199,9 @@ Definition assemble (mv : mvconv) (k : kind) (r : row) : res string :=
   vts <- get mv (type_symbol r) ;;
   ts <- rjust_v 2 vts ;;
   let l := l ++ ts in
-  (* 79-80: if == "?" two blanks else: expression statement *)
+  (* 79-80: line += _pdb_charge(value) *)
   vch <- get mv (pdbx_formal_charge r) ;;
-  let l := if eq_lit vch "?" then l ++ "  " else l in
+  let l := l ++ pdb_charge_v vch in
   Ok l.
 
 (* ---- pdb.ATOM.__init__ / pdb.HETATM.__init__ (fields the property needs
@@ -161,21 +213,6 @@ Record fields := mkfields {
   f_x : string; f_y : string; f_z : string;               (* text given to float() *)
   f_occ : string; f_tf : string;                           (* text given to float() *)
   f_seg : string; f_elem : string; f_chg : string }.
-
-(* int(s) for an already stripped ASCII string: optional sign, digits
-   (underscore separators and non-ASCII digits are not modelled) *)
-Definition py_int (s : string) : res Z :=
-  let body :=
-    match s with
-    | String "+" rest =>
-        match rest with
-        | String "-" _ => None
-        | String "+" _ => None
-        | _ => Z_of_string rest
-        end
-    | _ => Z_of_string s
-    end in
-  match body with Some z => Ok z | None => Err ValueError end.
 
 (* line[n] *)
 Definition char_at (n : nat) (s : string) : res string :=
@@ -235,7 +272,7 @@ Definition row_fields (mv : mvconv) (r : row) : res (option (string * fields)) :
 
 Inductive record :=
 | RAtom (line : string) (f : fields)
-| RModel (line : string) (n : Z)
+| RModel (line : string) (n : option Z)
 | REndmdl.
 
 (* result so far + the exception that ended the call, if any *)
@@ -283,9 +320,23 @@ Fixpoint rows_loop (mv : mvconv) (sel : option pyval) (rows : list row) (acc : l
       end
   end.
 
-(* "MODEL " + 4 blanks + str(j) right-justified in 4; pdb.MODEL parses
-   int(line[10:14]); a ValueError there is caught ("MODEL" goes to err_arr) *)
+(* "MODEL " + 4 blanks + str(j) right-justified in 4.  pdb.MODEL (after /repo 04a78e7) never
+   raises on it: serial = int(line[10:14].strip()), or on ValueError the first word after the
+   record name if it is all digits, else None *)
 Definition model_line (j : pyval) : string := "MODEL " ++ "    " ++ rjust 4 (py_str j).
+
+Definition is_dig (c : ascii) : bool :=
+  let n := nat_of_ascii c in (48 <=? n)%nat && (n <=? 57)%nat.
+
+Definition model_serial (ml : string) : option Z :=
+  match py_int (strip (slice 10 14 ml)) with
+  | Ok n => Some n
+  | Err _ =>
+      match tokens (drop 6 ml) with
+      | w :: _ => if all_chars is_dig w then Z_of_string w else None
+      | [] => None
+      end
+  end.
 
 Fixpoint models_loop (mv : mvconv) (models : list pyval) (rows : list row)
   (acc : list record) (errs : list string) : outcome :=
@@ -293,11 +344,7 @@ Fixpoint models_loop (mv : mvconv) (models : list pyval) (rows : list row)
   | [] => mkout acc errs None
   | j :: t =>
       let ml := model_line j in
-      let '(acc, errs) :=
-        match py_int (strip (slice 10 14 ml)) with
-        | Ok n => ((acc ++ [RModel ml n])%list, errs)
-        | Err _ => (acc, (errs ++ ["MODEL"])%list)
-        end in
+      let acc := (acc ++ [RModel ml (model_serial ml)])%list in
       match rows_loop mv (Some j) rows acc with
       | (acc, Some e) => mkout acc errs (Some e)
       | (acc, None) => models_loop mv t rows (acc ++ [REndmdl])%list errs
@@ -324,34 +371,19 @@ Definition pdb_name (name elem : string) : string :=
   if (String.length name <? 4)%nat && (String.length elem <? 2)%nat
   then " " ++ ljust 3 name else ljust 4 name.
 
-(* columns 79-80: "1-", "2+", blank for 0 / missing / |charge| > 9 *)
-Definition digit1 (z : Z) : option ascii :=
-  match z with
-  | 1 => Some "1" | 2 => Some "2" | 3 => Some "3" | 4 => Some "4" | 5 => Some "5"
-  | 6 => Some "6" | 7 => Some "7" | 8 => Some "8" | 9 => Some "9" | _ => None
-  end%Z%char.
-
-Definition pdb_charge (it : item) : string :=
-  match it with
-  | Tok s =>
-      match py_int s with
-      | Ok z =>
-          match digit1 (Z.abs z) with
-          | Some d => String d (String (if (0 <? z)%Z then "+"%char else "-"%char) "")
-          | None => "  "
-          end
-      | Err _ => "  "
-      end
-  | _ => "  "
-  end.
+(* the author's name when the row gives one, else the label name *)
+Definition eff (auth label : item) : item :=
+  match auth with Tok _ => auth | _ => label end.
+Definition name_item (r : row) : item := eff (auth_atom_id r) (label_atom_id r).
+Definition comp_item (r : row) : item := eff (auth_comp_id r) (label_comp_id r).
 
 Definition pdb_line_of_row (r : row) : string :=
   ljust 6 (tok_or "" (group_PDB r))
   ++ rjust 5 (tok_or "" (id r))
   ++ " "
-  ++ pdb_name (tok_or "" (auth_atom_id r)) (tok_or "" (type_symbol r))
+  ++ pdb_name (tok_or "" (name_item r)) (tok_or "" (type_symbol r))
   ++ ljust 1 (tok_or "" (label_alt_id r))
-  ++ rjust 3 (tok_or "" (auth_comp_id r))
+  ++ rjust 3 (tok_or "" (comp_item r))
   ++ " "
   ++ ljust 1 (tok_or "" (auth_asym_id r))
   ++ rjust 4 (tok_or "" (auth_seq_id r))
@@ -376,9 +408,9 @@ Definition spec_kind (r : row) : option kind :=
 (* the atom the row denotes (what both readers must produce); [chg] = columns 79-80 stripped *)
 Definition fields_of_row_chg (k : kind) (serial seq : Z) (r : row) (chg : string) : fields :=
   {| f_kind := k; f_serial := serial;
-     f_name := tok_or "" (auth_atom_id r);
+     f_name := tok_or "" (name_item r);
      f_alt := tok_or "" (label_alt_id r);
-     f_resname := tok_or "" (auth_comp_id r);
+     f_resname := tok_or "" (comp_item r);
      f_chain := tok_or "" (auth_asym_id r);
      f_resseq := seq;
      f_ins := tok_or "" (pdbx_PDB_ins_code r);
@@ -425,18 +457,19 @@ Definition item_eqb (a b : item) : bool :=
   | _, _ => false
   end.
 
-(* an alt-loc / insertion-code character that is literally "." or "?" cannot be told from
-   the mmCIF missing-value markers once the library hands tokens over verbatim: outside the domain *)
-Definition plain1 (s : string) : bool :=
-  okv 1 1 s && negb (String.eqb s "." || String.eqb s "?").
+(* a value that is literally "." or "?" cannot be told from the mmCIF missing-value markers
+   once the library hands tokens over verbatim: outside the domain *)
+Definition not_marker (s : string) : bool := negb (String.eqb s "." || String.eqb s "?").
+Definition plain1 (s : string) : bool := okv 1 1 s && not_marker s.
+Definition okvp (lo hi : nat) (s : string) : bool := okv lo hi s && not_marker s.
 
 (* the row is expressible as one PDB ATOM/HETATM record *)
 Definition expressible (r : row) : bool :=
   match spec_kind r with Some _ => true | None => false end
   && tokp (fun s => okv 1 5 s && is_int s) (id r)
-  && tokp (okv 1 4) (auth_atom_id r)
+  && tokp (okvp 1 4) (name_item r)
   && missing_or plain1 (label_alt_id r)
-  && tokp (okv 1 3) (auth_comp_id r)
+  && tokp (okvp 1 3) (comp_item r)
   && tokp (okv 1 1) (auth_asym_id r)
   && tokp (fun s => okv 1 4 s && is_int s) (auth_seq_id r)
   && missing_or plain1 (pdbx_PDB_ins_code r)
@@ -448,13 +481,8 @@ Definition expressible (r : row) : bool :=
 (* library conventions covered: '.' and '?' arrive as one of "", ".", "?", None *)
 Definition mv_ok (mv : mvconv) : bool := is_missing (mv_dot mv) && is_missing (mv_qm mv).
 
-(* the one refuted class left: atom / residue name are still read from label_* *)
-Definition c_label_ne_auth (r : row) : bool :=
-  negb (item_eqb (label_atom_id r) (auth_atom_id r)
-        && item_eqb (label_comp_id r) (auth_comp_id r)).
-
-(* exactly the complement of the refuted class inside [expressible] *)
-Definition guard (r : row) : bool := expressible r && negb (c_label_ne_auth r).
+(* no refuted class is left inside [expressible]; the name is kept for the users of this model *)
+Definition guard (r : row) : bool := expressible r.
 
 (* columns 79-80 of the PDB record are blank (no formal charge to carry) *)
 Definition charge_blank (r : row) : bool :=
@@ -473,7 +501,7 @@ Definition show_fields (f : fields) : string :=
 Definition show_record (rc : record) : string :=
   match rc with
   | RAtom l f => "A|" ++ l ++ "|" ++ show_fields f
-  | RModel l n => "M|" ++ l ++ "|" ++ Z_to_string n
+  | RModel l n => "M|" ++ l ++ "|" ++ match n with Some z => Z_to_string z | None => "None" end
   | REndmdl => "E"
   end.
 
@@ -533,4 +561,7 @@ Definition w_label := mk "HETATM" "478" "O" "O" Dot "HOH" "B" Qm "31.221" "16.58
 Definition w_charge := mk "ATOM" "7" "N" "NZ" Dot "LYS" "A" Qm "-10.123" "16.581" "2.104" "1.00" "20.55" (Tok "1") "12" "LYS" "A" "NZ".
 Definition w_comp := mk "HETATM" "478" "O" "O" Dot "WAT" "A" Qm "31.221" "16.581" "2.104" "1.00" "20.55" Qm "62" "HOH" "A" "O".
 Definition w_atomname := mk "ATOM" "7" "C" "CA" Dot "LYS" "A" Qm "-10.123" "16.581" "2.104" "1.00" "20.55" Qm "12" "LYS" "A" "CA1".
-Definition fixed_witnesses := [w_plain; w_alt; w_name4; w_ins; w_wide; w_occ; w_label; w_charge].
+(* a non-archive file: no auth_atom_id / auth_comp_id columns (auth_comp_id given as '?') *)
+Definition w_noauth := mkrow (Tok "ATOM") (Tok "7") (Tok "C") (Tok "CA") Dot (Tok "LYS") (Tok "A") Qm
+  (Tok "-10.123") (Tok "16.581") (Tok "2.104") (Tok "1.00") (Tok "20.55") (Tok "-2") (Tok "12") Qm (Tok "A") Absent (Tok "1").
+Definition fixed_witnesses := [w_plain; w_alt; w_name4; w_ins; w_wide; w_occ; w_label; w_charge; w_comp; w_atomname; w_noauth].
